@@ -3,6 +3,7 @@ package props
 import (
 	"testing"
 
+	"github.com/hashicorp/go-argmapper"
 	"github.com/hashicorp/go-argmapper/verifharness/engine"
 )
 
@@ -106,6 +107,12 @@ func evalC06(c *engine.Case) engine.Verdict {
 		case "convert":
 			o = w.Convert(sc.Target.In[0].Type, args)
 		case "redefine":
+			if c.HasFilter {
+				args = append(args, argmapper.FilterInput(typeFilter(c.Filter)))
+				if rep == 0 {
+					v.Class("redefine-with-input-filter")
+				}
+			}
 			_, rerr, rpanic, _, ro := w.RedefineCall(target, args)
 			o = ro
 			if rpanic != "" {
@@ -149,6 +156,24 @@ func genC06(g engine.G) *engine.Case {
 		c.Entry = "call"
 	case k < 8:
 		c.Entry = "redefine"
+		if g.Pct(40) {
+			c.Sc, c.Filter = engine.GenRedefineFocus(g)
+			sc = c.Sc
+			c.HasFilter = true
+		} else if g.Pct(60) {
+			// an input filter over a drawn subset of the types in play: the
+			// supplied values' types (leaves) are always useful to permit
+			c.HasFilter = true
+			for _, in := range sc.Inputs {
+				if g.Pct(70) {
+					c.Filter = append(c.Filter, in.L.Type)
+				}
+			}
+			for i, n := 0, g.Int(0, 3); i < n; i++ {
+				c.Filter = append(c.Filter, g.Int(0, engine.NumTypes-1))
+			}
+			c.Filter = uniqInts(c.Filter)
+		}
 	default:
 		c.Entry = "convert"
 	}
